@@ -763,10 +763,17 @@ def _ipow_spec(ex, path, args, kwargs, node, fn):
 @model("numpy.hstack", doc="hstack((A, B)): columns of A then columns of B")
 def _hstack(ex, path, args, kwargs, node, fn):
     seq = args[0]
-    A, B = seq.items
-    na = A.shape[1]
-    return Arr([A.shape[0], arith_add(na, B.shape[1])],
-               lambda r, c: z3.If(to_z3(c) < to_z3(na), to_z3(A.at(r, c), "real"), to_z3(B.at(r, to_z3(c) - to_z3(na)), "real")), "real", "hstack")
+    if not isinstance(seq, PyList) or seq.tail is not None or len(seq.items) < 1 or not all(isinstance(x, Arr) and x.ndim == 2 for x in seq.items):
+        raise Unsupported("hstack of something other than a fixed sequence of matrices")
+
+    def two(A, B):
+        na = A.shape[1]
+        return Arr([A.shape[0], arith_add(na, B.shape[1])],
+                   lambda r, c: z3.If(to_z3(c) < to_z3(na), to_z3(A.at(r, c), "real"), to_z3(B.at(r, to_z3(c) - to_z3(na)), "real")), "real", "hstack")
+    out = seq.items[0]
+    for nxt in seq.items[1:]:
+        out = two(out, nxt)
+    return out
 
 
 def arith_add(a, b):
